@@ -311,8 +311,8 @@ def h_threads(ctx):
 
 
 PARTS = [
-    Part("thread-schedules", h_threads, bound={"quick": 1, "thorough": 2}, split_depth=2, budget={"quick": 200, "thorough": 3000}, engine="E3"),
-    Part("ref-to-joserfc", h_from_ref, bound={"quick": 1, "thorough": 2}, split_depth=2, budget={"quick": 150, "thorough": 2400}),
-    Part("joserfc-to-ref", h_to_ref, bound={"quick": 1, "thorough": 2}, split_depth=2, budget={"quick": 150, "thorough": 2400}),
+    Part("thread-schedules", h_threads, bound={"quick": 1, "thorough": 2}, split_depth=2, budget={"quick": 2000, "thorough": 3000}, engine="E3"),
+    Part("ref-to-joserfc", h_from_ref, bound={"quick": 1, "thorough": 2}, split_depth=2, budget={"quick": 1500, "thorough": 2400}),
+    Part("joserfc-to-ref", h_to_ref, bound={"quick": 1, "thorough": 2}, split_depth=2, budget={"quick": 1500, "thorough": 2400}),
     _pm, _pv, _pz, _pl,
 ]
